@@ -1,6 +1,176 @@
 import YaegiVerif.Common.Sexp
-/- Line-protocol front end for C02 (glue). Placeholder until the property's model exists. -/
+import YaegiVerif.Model.Ops
+import YaegiVerif.Model.OpsFloat
+import YaegiVerif.Spec.GoInt
+import YaegiVerif.Generated.C02
+/- Line-protocol front end for C02 (glue, not a proof obligation).
+
+   ev FN CLS VARIANT SUB A B DS DW   → y=<outcome> g=<outcome>
+        the closure of interp/op.go identified by (FN, CLS, VARIANT, SUB) in the REGENERATED table, run by the
+        model on operands A, B for a destination of kind (DS, DW); g = Go's result for the operator FN stands for
+        A, B = (t S W N)  typed operand: signed 0/1, width, bit pattern as a natural number
+             | (u V)      untyped integer constant
+             | -          absent
+   evf FN CLS VARIANT SUB A B DW     → y=<x:bits|x:NaN|t|f|unmodelled|noentry> g=…   float closure (Model/OpsFloat.lean);
+        A, B = (f 32 N) | (f 64 N) | -      bit pattern of a float32 / float64
+   conv S W N S' W'                  → y=b:<n> g=b:<n>       integer conversion
+   outcome = b:<nat> | t | f | pdiv | pshift | preflect | unmodelled | noentry -/
 namespace YaegiVerif.Driver.C02
-open YaegiVerif
-def handle (_args : List Sexp) : String := "unimplemented"
+open YaegiVerif YaegiVerif.Ops YaegiVerif.Spec
+
+def fnNames : List (String × Fn) := [
+  ("add", .f_add), ("sub", .f_sub), ("mul", .f_mul), ("quo", .f_quo), ("rem", .f_rem), ("and", .f_and), ("or", .f_or),
+  ("xor", .f_xor), ("andNot", .f_andNot), ("shl", .f_shl), ("shr", .f_shr),
+  ("addAssign", .f_addAssign), ("subAssign", .f_subAssign), ("mulAssign", .f_mulAssign), ("quoAssign", .f_quoAssign),
+  ("remAssign", .f_remAssign), ("andAssign", .f_andAssign), ("orAssign", .f_orAssign), ("xorAssign", .f_xorAssign),
+  ("andNotAssign", .f_andNotAssign), ("shlAssign", .f_shlAssign), ("shrAssign", .f_shrAssign),
+  ("addConst", .f_addConst), ("subConst", .f_subConst), ("mulConst", .f_mulConst), ("quoConst", .f_quoConst),
+  ("remConst", .f_remConst), ("andConst", .f_andConst), ("orConst", .f_orConst), ("xorConst", .f_xorConst),
+  ("andNotConst", .f_andNotConst), ("shlConst", .f_shlConst), ("shrConst", .f_shrConst),
+  ("inc", .f_inc), ("dec", .f_dec),
+  ("equal", .f_equal), ("notEqual", .f_notEqual), ("lower", .f_lower), ("lowerEqual", .f_lowerEqual),
+  ("greater", .f_greater), ("greaterEqual", .f_greaterEqual),
+  ("bitNotConst", .f_bitNotConst), ("negConst", .f_negConst), ("notConst", .f_notConst), ("posConst", .f_posConst),
+  ("neg", .f_neg), ("pos", .f_pos), ("bitNot", .f_bitNot), ("not", .f_not)]
+
+def clsNames : List (String × Cls) := [("int", .int), ("uint", .uint), ("uintNoPtr", .uintNoPtr), ("float", .float),
+  ("complex", .complex), ("string", .string), ("bool", .bool), ("other", .other), ("any", .any),
+  ("untypedConst", .untypedConst), ("linked", .linked), ("ifaceOperand", .ifaceOperand)]
+def variantNames : List (String × Variant) := [("iface", .iface), ("cl", .cl), ("cr", .cr), ("vv", .vv), ("fold", .fold), ("plain", .plain)]
+def subNames : List (String × Sub) := [("none", .none), ("br", .br), ("val", .val)]
+
+def findEntry (T : List Entry) (fn : Fn) (cls : Cls) (v : Variant) (s : Sub) : Option Entry :=
+  T.find? (fun e => e.fn == fn && e.cls == cls && e.variant == v && e.sub == s)
+
+/-- which Go operator a function of op.go stands for -/
+inductive GoOp
+  | bin (op : GoInt.BinOp) | shl | shr | cmp (op : GoInt.CmpOp) | un (op : GoInt.UnOp) | inc | dec
+
+def goOp : Fn → Option GoOp
+  | .f_add | .f_addAssign | .f_addConst => some (.bin .add)
+  | .f_sub | .f_subAssign | .f_subConst => some (.bin .sub)
+  | .f_mul | .f_mulAssign | .f_mulConst => some (.bin .mul)
+  | .f_quo | .f_quoAssign | .f_quoConst => some (.bin .quo)
+  | .f_rem | .f_remAssign | .f_remConst => some (.bin .rem)
+  | .f_and | .f_andAssign | .f_andConst => some (.bin .and)
+  | .f_or | .f_orAssign | .f_orConst => some (.bin .or)
+  | .f_xor | .f_xorAssign | .f_xorConst => some (.bin .xor)
+  | .f_andNot | .f_andNotAssign | .f_andNotConst => some (.bin .andNot)
+  | .f_shl | .f_shlAssign | .f_shlConst => some .shl
+  | .f_shr | .f_shrAssign | .f_shrConst => some .shr
+  | .f_inc => some .inc
+  | .f_dec => some .dec
+  | .f_equal => some (.cmp .eql) | .f_notEqual => some (.cmp .neq)
+  | .f_lower => some (.cmp .lss) | .f_lowerEqual => some (.cmp .leq)
+  | .f_greater => some (.cmp .gtr) | .f_greaterEqual => some (.cmp .geq)
+  | .f_neg | .f_negConst => some (.un .neg)
+  | .f_pos | .f_posConst => some (.un .pos)
+  | .f_bitNot | .f_bitNotConst => some (.un .bitNot)
+  | _ => none
+
+def parseArg (s : Sexp) : Option Arg :=
+  match s with
+  | .atom "-" => some .absent
+  | .list [.atom "t", sg, w, n] => do
+    let sg ← sg.bool?
+    let w ← w.nat?
+    let n ← n.nat?
+    some (.typed sg w (BitVec.ofNat w n))
+  | .list [.atom "u", v] => do
+    let v ← v.int?
+    some (.untyped v)
+  | _ => none
+
+def showVal {w : Nat} : Outcome (Val w) → String
+  | .val (.bits x) => s!"b:{x.toNat}"
+  | .val (.bool true) => "t"
+  | .val (.bool false) => "f"
+  | .panicDiv => "pdiv"
+  | .panicShift => "pshift"
+  | .reflectPanic => "preflect"
+  | .unmodelled => "unmodelled"
+
+def showBits {w : Nat} : Outcome (BitVec w) → String
+  | .val x => s!"b:{x.toNat}"
+  | .panicDiv => "pdiv"
+  | .panicShift => "pshift"
+  | .reflectPanic => "preflect"
+  | .unmodelled => "unmodelled"
+
+/-- an operand as a value of kind (s, w): Go converts an untyped constant to the type the context gives it -/
+def asKind (s : Bool) (w : Nat) : Arg → Option (BitVec w)
+  | .typed s' w' x => if s' = s ∧ w' = w then some (x.setWidth w) else none
+  | .untyped v => some (GoInt.wrap w v)
+  | .absent => none
+
+/-- Go's answer. The operand kind is the kind of the typed operand (the destination kind for shifts and
+    for comparisons of two constants is irrelevant: comparisons take the operand kind). -/
+def spec (fn : Fn) (a b : Arg) (ds : Bool) (dw : Nat) : String :=
+  -- operand kind: of the left operand if typed, else of the right, else the destination
+  let (ks, kw) : Bool × Nat := match a, b with
+    | .typed s w _, _ => (s, w)
+    | _, .typed s w _ => (s, w)
+    | _, _ => (ds, dw)
+  match goOp fn with
+  | some (.bin op) =>
+    (match asKind ks kw a, asKind ks kw b with
+     | some x, some y => showBits (GoInt.binary op ks x y)
+     | _, _ => "unmodelled")
+  | some .shl =>
+    (match asKind ds dw a, b with
+     | some x, .typed cs _ c => showBits (GoInt.shlExec ds x cs c)
+     | some x, .untyped v => if v < 0 then "unmodelled" else showBits (GoInt.shlExec ds x false (BitVec.ofInt 64 v))
+     | _, _ => "unmodelled")
+  | some .shr =>
+    (match asKind ds dw a, b with
+     | some x, .typed cs _ c => showBits (GoInt.shrExec ds x cs c)
+     | some x, .untyped v => if v < 0 then "unmodelled" else showBits (GoInt.shrExec ds x false (BitVec.ofInt 64 v))
+     | _, _ => "unmodelled")
+  | some (.cmp op) =>
+    (match asKind ks kw a, asKind ks kw b with
+     | some x, some y => if GoInt.compare op ks x y then "t" else "f"
+     | _, _ => "unmodelled")
+  | some (.un op) =>
+    (match asKind ks kw a with
+     | some x => s!"b:{(GoInt.unary op ks x).toNat}"
+     | none => "unmodelled")
+  | some .inc => (match asKind ks kw a with | some x => s!"b:{(GoInt.incr ks x).toNat}" | none => "unmodelled")
+  | some .dec => (match asKind ks kw a with | some x => s!"b:{(GoInt.decr ks x).toNat}" | none => "unmodelled")
+  | none => "unmodelled"
+
+def parseFArg (s : Sexp) : Option OpsFloat.FArg :=
+  match s with
+  | .atom "-" => some .absent
+  | .list [.atom "f", .atom "32", n] => n.nat?.map (fun n => .f32 n.toUInt32)
+  | .list [.atom "f", .atom "64", n] => n.nat?.map (fun n => .f64 n.toUInt64)
+  | _ => none
+
+def handle (args : List Sexp) : String :=
+  match args with
+  | [.atom "evf", .atom fn, .atom cls, .atom v, .atom sb, a, b, dw] =>
+    (match fnNames.lookup fn, clsNames.lookup cls, variantNames.lookup v, subNames.lookup sb,
+           parseFArg a, parseFArg b, dw.nat? with
+     | some fn, some cls, some v, some sb, some a, some b, some dw =>
+       let y := match findEntry Generated.C02.opTable fn cls v sb with
+         | some e => OpsFloat.evalFloatEntry Generated.C02.widenTable e a b dw
+         | none => "noentry"
+       s!"y={y} g={OpsFloat.specFloat fn.tok a b}"
+     | _, _, _, _, _, _, _ => "bad-op")
+  | [.atom "ev", .atom fn, .atom cls, .atom v, .atom sb, a, b, ds, dw] =>
+    (match fnNames.lookup fn, clsNames.lookup cls, variantNames.lookup v, subNames.lookup sb,
+           parseArg a, parseArg b, ds.bool?, dw.nat? with
+     | some fn, some cls, some v, some sb, some a, some b, some ds, some dw =>
+       let y := match findEntry Generated.C02.opTable fn cls v sb with
+         | some e => showVal (evalEntry Generated.C02.widenTable e a b ds dw)
+         | none => "noentry"
+       s!"y={y} g={spec fn a b ds dw}"
+     | _, _, _, _, _, _, _, _ => "bad-op")
+  | [.atom "conv", s, w, n, _s', w'] =>
+    (match s.bool?, w.nat?, n.nat?, w'.nat? with
+     | some s, some w, some n, some w' =>
+       let x := BitVec.ofNat w n
+       s!"y=b:{(convInt s x w').toNat} g=b:{(GoInt.convert s x w').toNat}"
+     | _, _, _, _ => "bad-op")
+  | _ => "bad-op"
+
 end YaegiVerif.Driver.C02
